@@ -61,7 +61,7 @@ def _seed(ctx, cfg):
     for avail in (False, True):
         for cpu in (True, False):
             for gpu in (False, True):
-                for seed in (0, 1234, 2 ** 40 + 7):
+                for seed in (0, 1234, 2 ** 40 + 7, -1, -1234, 2 ** 63 - 1):
                     calls = []
                     with mock.patch.object(torch, "manual_seed", lambda s: calls.append(("cpu", s))), \
                             mock.patch.object(torch.cuda, "manual_seed", lambda s: calls.append(("cuda", s))), \
@@ -73,6 +73,40 @@ def _seed(ctx, cfg):
                               r is None and calls == want, str(calls))
     with mock.patch.object(torch, "manual_seed", lambda s: None):
         pass
+    # for every integer seed (front end A: the seed is a symbolic integer, both branches of every test on it explored)
+    from qv import astvc as A
+    vc = A.VC(ctx)
+
+    def run():
+        seed = vc.fresh_int("seed")
+        got = []
+
+        class Cuda:
+            @staticmethod
+            def is_available():
+                return True
+
+            @staticmethod
+            def manual_seed(s):
+                got.append(("cuda", s))
+
+        class TorchProxy:
+            cuda = Cuda
+
+            @staticmethod
+            def manual_seed(s):
+                got.append(("cpu", s))
+
+        class Warn:
+            @staticmethod
+            def warn(*a, **k):
+                pass
+        f, _rw = A.load(qucumber.set_random_seed, None, vc, extra_globals={"torch": TorchProxy, "warnings": Warn}, name="set_random_seed")
+        f(seed, cpu=True, gpu=True, quiet=True)
+        vc.check("set_random_seed/for every integer seed: both generators receive exactly that seed",
+                 A.AND(len(got) == 2, *[s == seed for _, s in got]) if len(got) == 2 else False)
+    vc.explore(run, "seed")
+    vc.flush()
     # default arguments: CPU generator only
     calls = []
     with mock.patch.object(torch, "manual_seed", lambda s: calls.append(("cpu", s))), mock.patch.object(torch.cuda, "manual_seed", lambda s: calls.append(("cuda", s))):
